@@ -270,13 +270,22 @@ def run(ck, facts, tier):
         b = need_body(ck, facts, R, key)
         if not b:
             continue
-        ifs = [n for n in walk(b.thir) if n.get("k") == "if" and n["cond"].get("k") == "letexpr"]
+        # `if let Some(i) = bv.index_if_innermost() {..} else {..}` or the equivalent `match` (core.iflet_as_match)
+        from core import iflet_as_match, select_arms as _sel, V as _V
+        from kit import params_of_type
+        ob = params_of_type(b, "DebruijnIndex") or {"outer_binder"}
+        ms = []
+        for n in walk(b.thir):
+            m_ = iflet_as_match(n) if n.get("k") == "if" else (n if n.get("k") == "match" and str(n.get("src", "")).startswith("Normal") else None)
+            if m_ is not None and has_call(m_.get("scrut"), "index_if_innermost"):
+                ms.append(m_)
         ok = False
-        if len(ifs) == 1 and has_call(ifs[0]["cond"]["e"], "index_if_innermost"):
-            t = ifs[0]["then"]
-            e = ifs[0].get("else")
-            t_ok = any(var_name(c["args"][-1]) == "outer_binder" for c in calls(t, "shifted_in_from")) and mentions_field(t, "parameters")
-            e_ok = e is not None and has_call(e, "shifted_out") and any(var_name(c["args"][-1]) == "outer_binder" for c in calls(e, "shifted_in_from"))
+        if len(ms) == 1:
+            sa, na = _sel(ms[0], _V("Some")), _sel(ms[0], _V("None"))
+            t = ms[0]["arms"][sa[0][0]]["body"] if sa else None
+            e = ms[0]["arms"][na[0][0]]["body"] if na else None
+            t_ok = t is not None and any(var_name(c["args"][-1]) in ob for c in calls(t, "shifted_in_from")) and mentions_field(t, "parameters")
+            e_ok = e is not None and has_call(e, "shifted_out") and any(var_name(c["args"][-1]) in ob for c in calls(e, "shifted_in_from"))
             ok = t_ok and e_ok
         if ok:
             ck.ok(R, "Subst::fold_free_var_%s" % kind)
@@ -296,10 +305,14 @@ def run(ck, facts, tier):
             ck.violation(R, "Shifter::adjust", b.where(), "must shift in by source_binder and by outer_binder (found %s)" % args)
     b = need_body(ck, facts, R, "chalk_ir::fold::shift::DownShifter::adjust")
     if b:
-        so = [c for c in calls(b.thir, "shifted_out_to")]
-        si = [c for c in calls(b.thir, "shifted_in_from")]
-        ok = len(so) == 1 and peel(so[0]["args"][1]).get("n") == "target_binder" and len(si) == 1 and var_name(si[0]["args"][1]) == "outer_binder" \
-            and any(n.get("k") == "adt" and n.get("v") == "Err" for n in walk(b.thir))
+        dth = facts.thir("chalk_ir::fold::shift::DownShifter::adjust")          # closures spliced in (`.map(|v| v.shifted_in_from(..))`)
+        so = [c for c in calls(dth, "shifted_out_to")]
+        si = [c for c in calls(dth, "shifted_in_from")]
+        from kit import params_of_type as _pot
+        ob = _pot(b, "DebruijnIndex") or {"outer_binder"}
+        fails = any(n.get("k") == "adt" and n.get("v") == "Err" for n in walk(dth)) or has_call(dth, "ok_or") or \
+            has_call(dth, "ok_or_else") or has_call(dth, "Try::branch")
+        ok = len(so) == 1 and peel(so[0]["args"][1]).get("n") == "target_binder" and len(si) == 1 and var_name(si[0]["args"][1]) in ob and fails
         if ok:
             ck.ok(R, "DownShifter::adjust", "shifted_out_to(target_binder)? then shifted_in_from(outer_binder)")
         else:
@@ -311,7 +324,10 @@ def run(ck, facts, tier):
             b = need_body(ck, facts, R, key)
             if b:
                 cs = [c for c in calls(b.thir, "adjust")]
-                if len(cs) == 1 and [var_name(a) for a in cs[0]["args"][1:]] == ["bound_var", "outer_binder"]:
+                from kit import params_of_type as _pot2
+                want_args = [_pot2(b, "BoundVar") or {"bound_var"}, _pot2(b, "DebruijnIndex") or {"outer_binder"}]
+                got_args = [var_name(a) for a in cs[0]["args"][1:]] if len(cs) == 1 else []
+                if len(cs) == 1 and len(got_args) == 2 and got_args[0] in want_args[0] and got_args[1] in want_args[1]:
                     ck.ok(R, "%s::%s%s" % (name, cb, kind))
                 else:
                     ck.violation(R, "%s::%s%s" % (name, cb, kind), b.where(), "must return adjust(bound_var, outer_binder)")
